@@ -4,7 +4,7 @@
    is the command's doing. Hashes are idealised as collision-free (free symbolic hashes `sym`; the generic
    statement takes injectivity of the content hash as a hypothesis). *)
 From Coq Require Import Relations.
-From Ruler Require Import Bytes AList RuleSyntax World Work Build Ops Inv InvFacts.
+From Ruler Require Import Bytes AList RuleSyntax TopoSort World Work Build Ops Inv BuildSpec InvFacts Acts ActsFacts.
 
 (* At every state that satisfies the disk invariant — by C07 that is every state reached under any
    schedule, at any instant — every action of ruler itself keeps every protected content (the contents of
@@ -44,4 +44,45 @@ Proof. exact c08_own_step_keeps_content_literal_refuted. Qed.
    "contents before a build are a subset of contents after it" for deterministic commands, which needs
    "a target present when its command runs already holds what the command writes". *)
 
+(* ------------------------------------------------------------------------------------------------------
+   EVERY ACTION THE MODELLED BUILD AND CLEAN ACTUALLY PERFORM (Model/Acts.v), in the order they perform them: each
+   action that is ruler's own (everything except a script line of the user's command) keeps every protected
+   content, the protected paths being any set that contains the plan's targets — so at every instant of a build
+   or clean, between any two of its actions, nothing that was at a target path or in the cache has been lost by
+   ruler. (A restore is only ever emitted into a path that ruler found or made empty.) *)
+
+Local Notation build_acts_sym := (build_acts sym_eqb SContent SList SRule).
+Local Notation clean_acts_sym := (clean_acts sym_eqb SContent).
+Local Notation run_acts_sym := (run_acts sym_eqb SRule).
+
+Theorem C08_every_action_of_a_build_keeps_content : forall (w : world sym) rp goal pre a suf paths c,
+  disk_inv sym_eqb SContent w ->
+  (forall w1 t pack, init_dir sym w = Ok (w1, t) -> get_nodes sym w1 rp goal = Ok pack ->
+                     incl (plan_targets pack) paths) ->
+  build_acts_sym w rp goal = pre ++ a :: suf ->
+  (forall l, a <> ALine l) ->
+  protected_content sym_eqb paths (run_acts_sym pre w) c ->
+  protected_content sym_eqb paths (run_acts_sym (pre ++ [a]) w) c.
+Proof. exact acts_build_keep_content_targets_sym. Qed.
+
+(* for an arbitrary set of paths the content is never destroyed: it stays protected or sits at a path that was empty *)
+Theorem C08_every_action_of_a_build_never_destroys : forall (w : world sym) rp goal pre a suf paths c,
+  disk_inv sym_eqb SContent w ->
+  build_acts_sym w rp goal = pre ++ a :: suf ->
+  (forall l, a <> ALine l) ->
+  protected_content sym_eqb paths (run_acts_sym pre w) c ->
+  protected_content sym_eqb paths (run_acts_sym (pre ++ [a]) w) c
+  \/ exists p f, ~ In p paths /\ fget (run_acts_sym pre w) p = None /\
+                 fget (run_acts_sym (pre ++ [a]) w) p = Some f /\ f_content f = c.
+Proof. exact acts_build_keep_content_sym. Qed.
+
+(* clean runs no command at all: every one of its actions keeps every protected content, for any set of paths *)
+Theorem C08_every_action_of_a_clean_keeps_content : forall (w : world sym) rp goal pre a suf paths c,
+  disk_inv sym_eqb SContent w ->
+  clean_acts_sym w rp goal = pre ++ a :: suf ->
+  protected_content sym_eqb paths (run_acts_sym pre w) c ->
+  protected_content sym_eqb paths (run_acts_sym (pre ++ [a]) w) c.
+Proof. exact acts_clean_keep_content_sym. Qed.
+
 Check C08_own_step_keeps_content.
+Check C08_every_action_of_a_build_keeps_content.
